@@ -15,6 +15,9 @@ structure Res where
 def Res.line (r : Res) : String :=
   s!"R K={if r.k then 1 else 0} O={if r.o then 1 else 0} F={",".intercalate r.flags} | {r.detail}"
 
+def res (k o : Bool) (flags : List String) (detail : String) : String :=
+  ({ k := k, o := o, flags := flags, detail := detail } : Res).line
+
 def bad (why : String) : String := s!"BAD {why}"
 
 def flag (b : Bool) (name : String) : List String := if b then [name] else []
